@@ -474,6 +474,9 @@ func rnObserve(rec *httptest.ResponseRecorder, valid string, secrets []string, c
 					inForm = true
 					act, _ := rnAttr(n, "action")
 					b, rq, rf := rnSplitLocation(act)
+					if act == "#ZgotmplZ" {
+						b, rq, rf = act, "", "" // the neutral action html/template writes for a URL it does not trust
+					}
 					target = b
 					qf, ok := rnQueryPairs(rq, 'q')
 					ff, ok2 := rnQueryPairs(rf, 'f')
@@ -634,10 +637,13 @@ func execRender(f []string) string {
 			p.WriteRevocationResponse(ctx, rec, err)
 			return rnObserve(rec, "-", secrets, true)
 		case "authorize_error":
-			if len(f) != 10 || err == nil {
+			if (len(f) != 10 && !(len(f) == 11 && f[10] == "ak=0")) || err == nil {
 				return "bad-op"
 			}
 			ar, ok := renderAuthReq(f[5], f[6] == "1", f[7], f[8])
+			if ok && rnActionKept(ar.RedirectURI.String()) != (len(f) == 10) {
+				return "bad-facts"
+			}
 			st, ok2 := rnUnhex(f[9])
 			if !ok || !ok2 {
 				return "bad-op"
@@ -669,10 +675,13 @@ func execRender(f []string) string {
 		renderProvider(false, false).WriteAccessResponse(ctx, rec, fosite.NewAccessRequest(new(fosite.DefaultSession)), resp)
 		return rnObserve(rec, "-", nil, false)
 	case "authorize_response":
-		if len(f) != 7 {
+		if len(f) != 7 && !(len(f) == 8 && f[7] == "ak=0") {
 			return "bad-op"
 		}
 		ar, ok := renderAuthReq(f[2], true, f[3], f[4])
+		if ok && rnActionKept(ar.RedirectURI.String()) != (len(f) == 7) {
+			return "bad-facts"
+		}
 		hd, ok2 := rnDecHeaders(f[5])
 		params, ok3 := rnDecPairs(f[6])
 		if !ok || !ok2 || !ok3 {
@@ -857,6 +866,35 @@ var renderRedirects = []struct {
 	{"https://client.example/cb", [][2]string{{"tenant", "a b&c"}, {"x", "1"}}},
 	{"https://client.example/cb", [][2]string{{"state", "own"}, {"error", "own-error"}, {"state", "own2"}}},
 	{"http://127.0.0.1:8080/cb%20x", [][2]string{{"k<\"", "v>'&"}}},
+	// schemes html/template does not trust as a form action (the document is written by the server's origin)
+	{"javascript:alert(document.domain)//", nil},
+	{"data:text/html,hello", nil},
+	{"vbscript:msgbox(1)", nil},
+	{"myapp://cb/path", [][2]string{{"x", "1"}}},
+	{"mailto:ops@client.example", nil},
+}
+
+// rnActionKept is html/template's documented URL filter, written out independently of the library: a URL is
+// kept when its text has no scheme, or the scheme http, https or mailto (compared case-insensitively);
+// otherwise "#ZgotmplZ" is written in its place.
+func rnActionKept(raw string) bool {
+	i := strings.IndexByte(raw, ':')
+	if i < 0 || strings.Contains(raw[:i], "/") {
+		return true
+	}
+	switch strings.ToLower(raw[:i]) {
+	case "http", "https", "mailto":
+		return true
+	}
+	return false
+}
+
+// rnAK is the trailing fact field of the authorize ops ("" when the action is kept)
+func rnAK(base string, q [][2]string) string {
+	if rnActionKept(rnRedirectString(base, q)) {
+		return ""
+	}
+	return "\tak=0"
 }
 
 type rnPlacement struct {
@@ -885,7 +923,7 @@ func (g *renderGen) emitError(pl rnPlacement, legacy, expose bool, chain string,
 	op := "render\t" + pl.writer + "\t" + rnB01(legacy) + "\t" + rnB01(expose) + "\t" + chain
 	if pl.writer == "authorize_error" {
 		rd := renderRedirects[redir]
-		op += "\t" + rnHex(pl.mode) + "\t" + rnB01(pl.valid) + "\t" + rnHex(rd.base) + "\t" + rnEncPairs(rd.q) + "\t" + rnHex(state)
+		op += "\t" + rnHex(pl.mode) + "\t" + rnB01(pl.valid) + "\t" + rnHex(rd.base) + "\t" + rnEncPairs(rd.q) + "\t" + rnHex(state) + rnAK(rd.base, rd.q)
 	}
 	g.e.Do(op)
 }
@@ -1091,7 +1129,7 @@ func RenderCases(e *Emitter, r *Rand, tier string) {
 				used[k] = true
 				ps = append(ps, [2]string{k, g.text()})
 			}
-			e.Do("render\tauthorize_response\t" + rnHex(mode) + "\t" + rnHex(rd.base) + "\t" + rnEncPairs(rd.q) + "\t" + hdrs() + "\t" + rnEncPairs(ps))
+			e.Do("render\tauthorize_response\t" + rnHex(mode) + "\t" + rnHex(rd.base) + "\t" + rnEncPairs(rd.q) + "\t" + hdrs() + "\t" + rnEncPairs(ps) + rnAK(rd.base, rd.q))
 		case 2:
 			opt := func() string {
 				if r.Intn(3) == 0 {
